@@ -18,6 +18,7 @@ HOOK_DEFS = [
     "-DUSER_MALLOC(size)=vf_malloc_at(size,__func__)",
     "-DUSER_FREE(p)=vf_free(p)",
     "-DUSER_ABORT(m)=vf_abort(m)",
+    "-Dexit=vf_exit",
 ]
 
 SAN_ASAN = ["-fsanitize=address,undefined", "-fno-sanitize-recover=undefined", "-fno-omit-frame-pointer"]
